@@ -152,6 +152,10 @@ func (c *Config) Unpack(to interface{}, options ...Option) error {
 	if !isValid {
 		return raisePointerRequired(vTo)
 	}
+	if k == reflect.Ptr && vTo.IsNil() {
+		// a typed nil pointer: there is nothing to unpack into
+		return raiseNil(ErrNilValue)
+	}
 
 	return reifyInto(opts, vTo, c)
 }
@@ -212,7 +216,7 @@ func reifyMap(opts *options, to reflect.Value, from *Config, validators []valida
 
 	for k, value := range fields {
 		opts.activeFields = newFieldSet(parentFields)
-		key := reflect.ValueOf(k)
+		key := reflect.ValueOf(k).Convert(to.Type().Key())
 
 		old := to.MapIndex(key)
 		var v reflect.Value
@@ -389,7 +393,7 @@ func reifyValue(
 	}
 
 	baseType := chaseTypePointers(t)
-	if tConfig.ConvertibleTo(baseType) {
+	if baseType.Kind() == reflect.Struct && tConfig.ConvertibleTo(baseType) {
 		cfg, err := val.toConfig(opts.opts)
 		if err != nil {
 			return reflect.Value{}, raiseExpectedObject(opts.opts, val)
@@ -462,7 +466,7 @@ func reifyMergeValue(
 
 	baseType := chaseTypePointers(old.Type())
 
-	if tConfig.ConvertibleTo(baseType) {
+	if baseType.Kind() == reflect.Struct && tConfig.ConvertibleTo(baseType) {
 		sub, err := val.toConfig(opts.opts)
 		if err != nil {
 			return reflect.Value{}, raiseExpectedObject(opts.opts, val)
